@@ -104,3 +104,144 @@ def untag (addr : Nat) : Nat := addr / 2 * 2
 def isFirst (addr : Nat) : Bool := addr % 2 == 0
 
 end LY
+
+/-!
+## Addresses, raw-pointer round trips, ThinArc, ArcUnion words (added by the layout slice)
+
+Each definition mirrors one Rust function; `base` is the address the allocator returned
+(= `self.p` / `heap_ptr()`), `p` is the layout of the payload as `Layout::for_value` sees it
+(a function of the pointer's type and metadata only).
+-/
+namespace LY
+
+/-- `Arc::as_ptr`: `addr_of_mut!((*self.ptr()).data)` — base plus the *type-layout* field offset -/
+def asPtr (bits base : Nat) (p : Layout) : Nat := base + (arcInnerLayout bits p).2
+/-- `Arc::into_raw`: `ManuallyDrop::new(this).as_ptr()` -/
+def intoRaw (bits base : Nat) (p : Layout) : Nat := asPtr bits base p
+/-- `Deref for Arc`: `&self.inner().data` — the address at which the value lives -/
+def derefAddr (bits base : Nat) (p : Layout) : Nat := base + (arcInnerLayout bits p).2
+/-- `dataAddr` of DESIGN §2: the address of the `data` field -/
+def dataAddr (bits base : Nat) (p : Layout) : Nat := derefAddr bits base p
+/-- `Arc::heap_ptr`: `self.p.as_ptr() as *const c_void` -/
+def heapPtr (base : Nat) : Nat := base
+/-- `Arc::from_raw`: `ptr.byte_sub(ArcInner::offset_of_data(ptr))` (`none` = the `unwrap` in
+`offset_of_data` panics); the result is the recovered `ArcInner` address -/
+def fromRaw (bits ptr : Nat) (p : Layout) : Option Nat :=
+  (offsetOfData bits p).map (fun off => ptr - off)
+/-- `Arc::into_raw_offset`: the `OffsetArc`'s single word is `Arc::into_raw(a)` -/
+def intoRawOffset (bits base : Nat) (p : Layout) : Nat := intoRaw bits base p
+/-- `Arc::from_raw_offset`: `Arc::from_raw(a.ptr.as_ptr())` -/
+def fromRawOffset (bits word : Nat) (p : Layout) : Option Nat := fromRaw bits word p
+/-- `Arc::borrow_arc`: the `ArcBorrow`'s single word is `self.as_ptr()` -/
+def borrowArc (bits base : Nat) (p : Layout) : Nat := asPtr bits base p
+/-- `Layout::for_value` on a `dyn Trait` pointee reads `(size, align)` from the vtable, which rustc
+fills with the concrete type's layout -/
+def forValueDyn (concrete : Layout) : Layout := ⟨concrete.size, concrete.align⟩
+
+/-- payload of a ThinArc block: `HeaderSlice<HeaderWithLength<H>, [T]>` with `len` elements;
+(layout, offset of the slice inside the payload) -/
+def thinPayload (bits : Nat) (h t : Layout) (len : Nat) : Layout × Nat :=
+  headerSliceLayout (headerWithLengthLayout bits h).1 t len
+/-- `ThinArc::ptr`: `self.ptr.cast().as_ptr()` — the `ArcInner` address itself -/
+def thinPtr (base : Nat) : Nat := base
+/-- `ThinArc::heap_ptr` = `self.ptr()` -/
+def thinHeapPtr (base : Nat) : Nat := thinPtr base
+/-- `ThinArc::as_ptr` = `self.ptr()` (what the code does; see finding ThinArc-raw-is-block-address) -/
+def thinAsPtr (base : Nat) : Nat := thinPtr base
+/-- `ThinArc::into_raw` = `ManuallyDrop::new(self).ptr()` -/
+def thinIntoRaw (base : Nat) : Nat := thinPtr base
+/-- `ThinArc::from_raw`: the word becomes `self.ptr` unchanged -/
+def thinFromRaw (word : Nat) : Nat := word
+/-- `Deref for ThinArc`: `(*thin_to_thick(self)).data.inner()` — address of the payload inside the
+fat `ArcInner<HeaderSlice<HeaderWithLength<H>, [T]>>` with the stored length as metadata -/
+def thinDerefAddr (bits base : Nat) (h t : Layout) (len : Nat) : Nat :=
+  base + (arcInnerLayout bits (thinPayload bits h t len).1).2
+/-- `thin_to_thick` reads `(*thin).data.header.length` through the *thin* pointee type
+`ArcInner<HeaderSlice<HeaderWithLength<H>, [T; 0]>>`: address of that field -/
+def thinLengthAddr (bits base : Nat) (h t : Layout) : Nat :=
+  base + (arcInnerLayout bits (thinPayload bits h t 0).1).2 + (headerWithLengthLayout bits h).2
+/-- address of the `length` field as the fat view (`len` elements) sees it -/
+def fatLengthAddr (bits base : Nat) (h t : Layout) (len : Nat) : Nat :=
+  base + (arcInnerLayout bits (thinPayload bits h t len).1).2 + (headerWithLengthLayout bits h).2
+
+/-- the slice constructors of `Arc<HeaderSlice<H, [T]>>` -/
+inductive HsCtor where
+  | iter | slice | vec | uninit
+deriving DecidableEq, Repr
+/-- `from_header_and_iter` / `from_header_and_slice` start with
+`assert_ne!(size_of::<T>(), 0, "Need to think about ZST")`; `from_header_and_vec` and
+`from_header_and_uninit_slice` do not -/
+def HsCtor.assertsNonZst : HsCtor → Bool
+  | .iter => true | .slice => true | .vec => false | .uninit => false
+
+inductive AllocRes where
+  | ok (l : Layout)
+  | zstRefused
+  | overflow
+deriving DecidableEq, Repr
+
+/-- a header+slice constructor up to and including its allocation request -/
+def ctorHeaderSlice (bits : Nat) (c : HsCtor) (h t : Layout) (len : Nat) : AllocRes :=
+  if c.assertsNonZst && t.size == 0 then .zstRefused
+  else match allocLayoutHeaderSlice bits h t len with
+    | none => .overflow
+    | some l => .ok l
+
+/-- `ArcUnion::from_first`: the word is `Arc::into_raw(other)` -/
+def unionFromFirst (dataAddr : Nat) : Nat := dataAddr
+/-- `ArcUnion::from_second`: `Arc::into_raw(other) as usize | 0x1` -/
+def unionFromSecond (dataAddr : Nat) : Nat := tagSecond dataAddr
+/-- `ArcUnion::borrow`: `(is_first, address handed to ArcBorrow::from_ptr)` -/
+def unionBorrow (word : Nat) : Bool × Nat :=
+  if isFirst word then (true, word) else (false, untag word)
+
+/-- number of machine words of each handle type (`kind` as printed by the harness); `fat` =
+the pointee is a slice / str / trait object -/
+def handleWords (fat : Bool) : Nat := if fat then 2 else 1
+
+end LY
+
+/-! ## constructors up to their allocation request (mirrors which layout computation each uses) -/
+namespace LY
+
+/-- constructors of `Arc<T>` for sized `T` -/
+inductive SizedCtor where
+  /-- `Arc::new`, `Arc::from(T)`, `UniqueArc::new`, `Arc::new_uninit` (= `Arc::new(MaybeUninit::uninit())`):
+  `Box::new(ArcInner { .. })` -/
+  | boxNew
+  /-- `Arc::from(Box<T>)`: `allocate_for_layout(Layout::for_value(&b))` -/
+  | fromBox
+  /-- `UniqueArc::new_uninit`: `alloc(Layout::new::<ArcInner<MaybeUninit<T>>>())` -/
+  | uniqUninit
+deriving DecidableEq, Repr
+
+def ctorSized (bits : Nat) (c : SizedCtor) (t : Layout) : AllocRes :=
+  match c with
+  | .boxNew => .ok (allocLayoutBoxNew bits t)
+  | .uniqUninit => .ok (allocLayoutNewUninit bits t)
+  | .fromBox => match allocLayoutFor bits t with
+    | none => .overflow
+    | some l => .ok l
+
+/-- constructors of `Arc<[T]>`: which header+slice constructor they go through (with the unit
+header) before the header is erased -/
+inductive SliceCtor where
+  /-- `Arc::<[T]>::from(&[T])` → `from_header_and_slice((), _)` -/
+  | fromRef
+  /-- `Arc::<[T]>::from(Vec<T>)` → `from_header_and_vec((), _)` -/
+  | fromVec
+  /-- `FromIterator` with `size_hint` lower = upper → `from_header_and_iter((), _)` -/
+  | iterExact
+  /-- `FromIterator` otherwise → collect into a `Vec`, then `From<Vec<T>>` -/
+  | iterUnknown
+  /-- `Arc::new_uninit_slice` / `UniqueArc::new_uninit_slice` → `from_header_and_uninit_slice((), _)` -/
+  | uninit
+deriving DecidableEq, Repr
+
+def SliceCtor.via : SliceCtor → HsCtor
+  | .fromRef => .slice | .fromVec => .vec | .iterExact => .iter | .iterUnknown => .vec | .uninit => .uninit
+
+def ctorSlice (bits : Nat) (c : SliceCtor) (t : Layout) (len : Nat) : AllocRes :=
+  ctorHeaderSlice bits c.via unitLayout t len
+
+end LY
